@@ -646,9 +646,25 @@ func init() {
 					c.Check(v == 0, key, ci.Pos(), "constant wait %d", v)
 					continue
 				}
-				v := accessPath(stripConv(d))
-				fs := canonFacts(ci.Block())
-				ok := fs[v+" <= {ThrottlingChecker}.maxQueueingTimeNs"] || fs[v+" < {ThrottlingChecker}.maxQueueingTimeNs"]
+				// the wait may be assembled in a local (`w := d; if w < 0 { w = 0 }`): every alternative is 0 or bounded
+				ok, v := true, ""
+				here := canonFacts(ci.Block())
+				for _, cs := range splitPhiCases(stripConv(d), ci.Block(), nil, 0) {
+					cv := stripConv(cs.val)
+					if k, isK := constInt(cv); isK {
+						if k != 0 {
+							ok = false
+							v = fmt.Sprintf("constant %d", k)
+						}
+						continue
+					}
+					v = accessPath(cv)
+					fs := canonFacts(cs.block, cs.extra...)
+					if !(fs[v+" <= {ThrottlingChecker}.maxQueueingTimeNs"] || fs[v+" < {ThrottlingChecker}.maxQueueingTimeNs"] || here[v+" <= {ThrottlingChecker}.maxQueueingTimeNs"] || here[v+" < {ThrottlingChecker}.maxQueueingTimeNs"]) {
+						ok = false
+						break
+					}
+				}
 				c.Check(ok, key, ci.Pos(), "wait %s is bounded by a dominating comparison with c.maxQueueingTimeNs: %v", v, ok)
 			}
 			if n == 0 {
